@@ -5,6 +5,7 @@ open CuqiVerif CuqiVerif.Proto CuqiVerif.C08
 /-
   nuts <guard:0|1> <maxDepth> <eps> <P> <b> <wall|none> <x> <r> <e> <uniforms>
     -> acc | x_next | nodes | consumed | j | n | diffs(leaves of last doubling, H'-H0 or `nan`) | margin | logd_next | grad_next
+  trace <same arguments as nuts> -> idx:n:n' for every doubling with s'=1 (idx = position of its acceptance draw), or `_`
   leapfrog <eps> <P> <b> <x> <r>  -> x' | r' | grad'
   tree <v> <j> <eps> <P> <b> <wall> <x> <r> <logu> <ham0> <uniforms>
     -> n | s | cand.x | leaves.x (matrix) | nodes | consumed
@@ -27,7 +28,37 @@ def parseWall (s : String) : Option (Option Rat × XR) :=
     | _, _ => none
   | _ => none
 
+/-- the top-level acceptance draws of one transition: for every doubling whose sub-tree ended with `s' = 1`
+    the position (in the uniform script) of the `rand()` compared with `n'/n`, and the two counts.
+    The trajectory does not depend on those draws, so the harness may move them to either side of `n'/n`. -/
+def accTrace (c : Ctx PS) (guard : PS → Bool) (maxDepth total : Nat) : Nat → Loop PS → List String
+  | 0, _ => []
+  | fuel + 1, st =>
+    if st.s && decide (st.j ≤ maxDepth) then
+      let (ud, us0) := popU st.us
+      let v : Int := if ud < 1/2 then 1 else -1
+      let (t, us1) := buildTree c v st.j (if v = -1 then st.zminus else st.zplus) us0
+      let here := if t.s then [s!"{total - us1.length}:{st.n}:{t.n}"] else []
+      here ++ accTrace c guard maxDepth total fuel (loopBody c guard st)
+    else []
+
 def step : List String → String
+  | ["trace", g, md, eps, P, b, wall, x, r, e, us] =>
+    match parseNat g, parseNat md, parseRat eps, parseMat P, parseVec b, parseWall wall,
+          parseVec x, parseVec r, parseRat e, parseVec us with
+    | some g, some md, some eps, some P, some b, some wall, some x, some r, some e, some us =>
+      let t : Target := { P := P, b := b, wall := wall.1, wallVal := wall.2 }
+      match t.logd x with
+      | .fin l0 =>
+        let z0 : PS := { x := x, r := r, logd := .fin l0, grad := t.grad x }
+        let ham0 := l0 - (1/2) * dotQ r r
+        let c := psCtx t eps (ham0 - e) ham0
+        let guard : PS → Bool := if g = 1 then (fun z => z.logd.isFinite) else (fun _ => true)
+        let tr := accTrace c guard md us.length (md + 1)
+          { cur := z0, zminus := z0, zplus := z0, j := 0, s := true, n := 1, acc := false, last := [], nodes := 0, us := us }
+        if tr.isEmpty then "_" else ",".intercalate tr
+      | _ => "err-nonfinite-start"
+    | _, _, _, _, _, _, _, _, _, _ => "bad-op"
   | ["nuts", g, md, eps, P, b, wall, x, r, e, us] =>
     match parseNat g, parseNat md, parseRat eps, parseMat P, parseVec b, parseWall wall,
           parseVec x, parseVec r, parseRat e, parseVec us with
